@@ -9,14 +9,22 @@
     calls.  The reduction from Python's finer interleavings to these steps rests on the
     fact that every access to [_recording_operation_buffer] sits inside [with self._lock:]
     (checked on every run by the harness' ast gate) - it is an argument, not a Coq theorem. *)
-From Coq Require Import List NArith Bool Arith.
+From Coq Require Import List NArith ZArith Bool Arith.
+From Playback Require Import Values.PyVal.
 Import ListNotations.
 Open Scope list_scope.
 
 (** * The wrapped cassette (what synchronous recording would do) *)
 
 Definition key := N.
-Definition val := N.
+(** A recorded value is a Python value WITH its type ([Values.PyVal.pyval]): [VInt 1], [VBool true] and
+    [VFloat "1.0"] compare equal in Python ([1 == True == 1.0]) and are three different recorded values, [VNone] is a
+    value like any other (a key holding None is not an absent key), and so are the empty containers.  The cassette
+    never looks at a value: synchronous recording stores whatever it is given (R:35-37 [_set_data],
+    memory_recording.py:67 [recording_metadata.update(metadata)] - no comparison with what is already there), so the
+    model stores it unconditionally too, and the runner compares stored values constructor by constructor
+    ([RunC12.val_eqb]). *)
+Definition val := pyval.
 (** a Python dict with str keys, kept sorted by key (dict equality ignores order) *)
 Definition dict := list (key * val).
 
